@@ -148,6 +148,12 @@ func (e *exec) rValue(v *value) string {
 			parts = append(parts, e.rValue(x))
 		}
 		return "[" + strings.Join(parts, " ") + "]"
+	case 'K':
+		parts := []string{}
+		for _, x := range v.arr {
+			parts = append(parts, e.rValue(x))
+		}
+		return fmt.Sprintf("(concat (slice (hget v%d (quote %s)) 0 0) [%s])", v.n, fn(v.f), strings.Join(parts, " "))
 	case '@':
 		return fmt.Sprintf("v%d", v.n)
 	case '&':
@@ -257,6 +263,12 @@ func (e *exec) render(o *op) string {
 		parts := []string{}
 		for _, a := range o.args {
 			parts = append(parts, rKeyCtor(a.k)+e.rValue(a.v))
+		}
+		switch o.shape {
+		case 'a': // through a variable holding the type
+			return fmt.Sprintf("(def al%d %s) (def v%d (al%d %s))", e.stepNo, e.sname(o.s), o.id, e.stepNo, strings.Join(parts, " "))
+		case 'f': // through a function parameter holding the type
+			return fmt.Sprintf("(def v%d ((fn [ty] (ty %s)) %s))", o.id, strings.Join(parts, " "), e.sname(o.s))
 		}
 		return fmt.Sprintf("(def v%d (%s %s))", o.id, e.sname(o.s), strings.Join(parts, " "))
 	case 'W':
